@@ -210,6 +210,21 @@ impl From<HashMap<PathBuf, Vec<u8>>> for FakeFileSystem {
     }
 }
 
+impl FakeFileSystem {
+    /// Returns `true` if any component of the `path` begins with `.`
+    /// while the corresponding component of the `pattern` begins with a wildcard.
+    fn has_wildcard_matched_dot_file(pattern: &str, path: &Path) -> bool {
+        let pattern_components = Path::new(pattern).components();
+        pattern_components
+            .zip(path.components())
+            .any(|(pattern, actual)| {
+                let pattern = pattern.as_os_str().to_string_lossy();
+                let actual = actual.as_os_str().to_string_lossy();
+                actual.starts_with('.') && pattern.starts_with(['*', '?', '['])
+            })
+    }
+}
+
 impl FileSystem for FakeFileSystem {
     fn canonicalize_path<'a>(&self, path: &'a Path) -> Cow<'a, Path> {
         let mut ret = PathBuf::new();
@@ -252,6 +267,9 @@ impl FileSystem for FakeFileSystem {
             .0
             .keys()
             .filter(|x| pattern.matches_path_with(x, glob_match_options()))
+            // glob::Pattern lets `*` match the empty string before a leading dot,
+            // while wildcards never match dot-files on the real file system.
+            .filter(|x| !Self::has_wildcard_matched_dot_file(pattern.as_str(), x))
             .cloned()
             .collect();
         paths.sort_by(|x, y| y.cmp(x));
